@@ -24,7 +24,7 @@ def vf_jobs(tier):
             witnesses=['rejected','seek failed','seek crossed into the other link'],models=ENV,tags=['C19','C03'],functions=['_ov_d_seek_lap' if ds else '_ov_64_seek_lap','ov_info','ov_halfrate_p'],
             bounds='2 links, short blocks 64..4096, channels 1..3, every error return of every step'))
     J.append(Job('splice','vf/splice.c',defs=['-DCAP=%d'%(3 if q else 4)],unwind=6,object_bits=12,witnesses=['old block shorter','new block shorter','channels fade in from silence'],models=[],tags=['C19','C03'],
-        functions=['_ov_splice'],bounds='half blocks of 1..%d samples (scaled), 1..3 channels on either side, arbitrary float samples and window coefficients'%(3 if q else 4)))
+        functions=['_ov_splice'],bounds='half blocks of 1..%d samples (scaled), 1..3 channels on either side (symbolic), tagged samples and window coefficients'%(3 if q else 4)))
     J.append(Job('F-crosslap','vf/f_crosslap.c',cuts={'vorbisfile.c':['_ov_initset','_ov_initprime','_ov_getlap','_ov_splice']},unwind=5,object_bits=12,
         witnesses=['rejected','priming failed','spliced with differing half-rate flags'],models=ENV,tags=['C19','C03'],functions=['ov_crosslap','ov_info','ov_halfrate_p'],bounds='two single-link handles, short blocks 64..4096, channels 1..3'))
     for npg in ([2] if q else [2,3]):
